@@ -20,6 +20,12 @@ Theorem C09_fixed_text_is_rounded_value :
 Proof. exact fmt_f_parse_back. Qed.
 Print Assumptions C09_fixed_text_is_rounded_value.
 
+(* the same with thousands separators, format(q, 'w,.pf') (S-DAC-GT report): the reader skips the commas *)
+Theorem C09_comma_text_is_rounded_value :
+  forall q w p, parse_dec_comma (fmt_fc (Fin q) w p) = Some (shown q p).
+Proof. exact fmt_fc_parse_back. Qed.
+Print Assumptions C09_comma_text_is_rounded_value.
+
 (* hence: what a reader sees in a fixed field is the quantity rounded to the displayed precision *)
 Theorem C09_printed_figure_is_quantity_rounded :
   forall q w p, exists z, parse_dec (fmt_f (Fin q) w p) = Some z /\ (Qabs (z - q) <= (1#2) / inject_Z (pow10 p))%Q.
@@ -131,6 +137,10 @@ Print Assumptions C09_scalar_line_layout.
 Example C09_ex_tie : fmt_f (Fin (2675#1000)) 10 2 = "      2.68"%string
   /\ fmt_f (Fin (3011692045189939 # 1125899906842624)) 10 2 = "      2.67"%string
   /\ fmt_f (Fin (-(1#1000))) 6 2 = " -0.00"%string.
+Proof. vm_compute. repeat split; reflexivity. Qed.
+
+Example C09_ex_comma : fmt_fc (Fin (1234567891#1000)) 0 2 = "1,234,567.89"%string /\ fmt_fc (Fin (-(999995#1000))) 0 2 = "-1,000.00"%string
+  /\ parse_dec_comma "1,234,567.89" = Some ((1 * (inject_Z 123456789 / inject_Z (pow10 2)))%Q).
 Proof. vm_compute. repeat split; reflexivity. Qed.
 
 (* a 3-year production profile with 2 time steps per year, labels 1..3: rows read indices 0, 2, 4 *)
